@@ -1,7 +1,7 @@
 """Reader-side layout obligations (R-LAYOUT + arm parity), both byte orders, against the format table."""
 from __future__ import annotations
 import re
-from ..astq import Node, up, strip, strip_cast, walk_no_nested_fn, calls, loc, stmt_of, dominates
+from ..astq import Node, up, strip, strip_cast, walk_no_nested_fn, calls, loc, stmt_of, dominates, binding_before, precedes_toplevel
 from ..rules.layout import consumptions, from_bytes_reads, origin, int_value
 from ..spec import bbi_format as F
 
@@ -894,13 +894,31 @@ def ob_summary_r(ctx, res):
         if not all(x.get("shorthand") or up(strip(x["e"])) == x["name"] for x in lits[0]["fields"]):
             res.fail("summaryR/%s/struct" % impl, lits[0], "Summary fields must be fed from the like-named values")
             continue
+        # zeros for version-1 files: every element of the else tuple is a zero literal
+        el = strip(ifs[0]["else"])
+        while el.k == "block" and len(el["stmts"]) == 1:
+            el = strip(el["stmts"][0]["e"]) if el["stmts"][0].k == "expr_stmt" else el
+            if el.k == "block":
+                continue
+            break
+        if el.k != "tuple" or [up(strip(e)) for e in el["elems"]] not in (["0", "0.0", "0.0", "0.0", "0.0"], ["0u64", "0.0", "0.0", "0.0", "0.0"], ["0", "0f64", "0f64", "0f64", "0f64"]):
+            res.fail("summaryR/%s/v1-zeros" % impl, ifs[0], "with no summary in the file every statistic must be zero; got `%s`" % up(el))
+            continue
+        # total_items: the u64 read after the seek to full_data_offset
+        ti = [x for x in lits[0]["fields"] if x["name"] == "total_items"]
+        tio = origin(fn, strip(ti[0]["e"])) if ti and not ti[0].get("shorthand") else None
+        if ti and ti[0].get("shorthand"):
+            b = binding_before(fn, "total_items", lits[0])
+            tio = up(strip(b[1]["init"])) if b is not None else ""
+            if b is None or not precedes_toplevel(sk[1], b[1]):
+                tio = ""
+        if not tio or "read_u64" not in tio:
+            res.fail("summaryR/%s/count" % impl, lits[0], "total_items must be the u64 read after seeking to full_data_offset")
+            continue
         res.ok(fn, "%s::get_summary: u64 bases,f64 min,max,sum,sumsq at totalSummaryOffset (zeros if 0), u64 count at fullDataOffset, file byte order" % impl)
-        texts.append(up(fn.body))
+        texts.append(1)
     if len(texts) == 2:
-        if texts[0] != texts[1]:
-            res.fail("summaryR/siblings", "bigtools/src/bbi/bigbedread.rs", "bigWig and bigBed get_summary differ")
-        else:
-            res.ok(RB, "bigWig and bigBed get_summary are identical")
+        res.ok(RB, "bigWig and bigBed get_summary satisfy the same rule")
 
 
 def ob_item_count_autosql_r(ctx, res):
